@@ -39,6 +39,9 @@ CHECKS = {
  'C12': dict(level='fault_enumeration', technique='fault injection on the real cache file (truncation offsets, bit flips, spliced/foreign payloads, writer killed in a subprocess, key histories incl. python 3.11) with behaviour-vector oracle vs uncached build and cache-served observation',
              text='Every fault state of the cache file is followed by a real construction whose behaviour vector (canonical outcomes with positions on a fixed input set, terminal table, rules) must equal the uncached build; the constructor must not raise; a parser cached for another key must not be served (observed: load_grammar called or not); the file left behind must be a valid cache. Truncation offsets are enumerated (quick: every 16th + whole prologue; thorough: every offset), other faults sampled.',
              note='Known findings F-C12-1 (payload not integrity-checked) and F-C12-2 (edit_terminals / postlex.always_accept neither hashed nor re-applied). Damaged-payload loads run in a forked child under memory and time limits.', ref='4 C12'),
+ 'C13': dict(level='exploration', technique='runtime monitor over fork histories of InteractiveParser handles: per-handle result vs parse() of its own text, re-canonicalisation of earlier results after every later operation, accepts() vs trial feeds and reference automaton, resume_parse vs manual feed / blanked text',
+             text='Random fork trees (copy, copy.copy, as_immutable, as_mutable, immutable feed_token; forks after every prefix; diverging continuations; accepts()/choices() interleaved; random finishing order) on generated LALR grammars with inlined left-recursive lists, ?-rules, placeholders, propagate_positions and an embedded list-returning transformer. Every handle must end with exactly the parse() result of its own token sequence and no earlier result may change afterwards.',
+             note='Expected values come from Lark.parse itself (judged by C02/C03). resume == parse of the blanked text only when the parser had not reduced on the bad lookahead; otherwise == manual feeding from a fork of the same state.', ref='4 C13'),
  'C20': dict(level='exploration', technique='differential runtime monitor: forest transformers/visitors vs reference derivation enumeration; step budget + on_cycle observation on cyclic forests',
              text="For every accepted input the SPPF returned under ambiguity='forest' is walked by TreeForestTransformer (both modes), a counting ForestTransformer and a ForestVisitor; results are compared with the reference enumeration over the compiled rules (acyclic) or validated under a step budget with on_cycle observed (cyclic).",
              note='Trusts reference enumerator over Lark.rules (the forest names helper rules).', ref='4 C20'),
